@@ -104,11 +104,13 @@ inductive Rule
   | ifFwd (k : Kind) (p q q' : Paths)
   /-- `f i` and `g i` have the same number of values -/
   | card (k : Kind) (f g : Field)
+  /-- every target `j` of `f` (of kind `kj` if given) is one of `eval q i` -/
+  | memIf (k : Kind) (f : Field) (kj : Option Kind) (q : Paths)
   deriving DecidableEq, Repr
 
 def Rule.kind : Rule → Kind
   | .typed k .. | .one k .. | .irrefl k .. | .sameDir k .. | .invIf k .. | .link k ..
-  | .sub k .. | .same k .. | .ifFwd k .. | .card k .. => k
+  | .sub k .. | .same k .. | .ifFwd k .. | .card k .. | .memIf k .. => k
 
 /-- the executable check of a rule at element `e` (index `i`) -/
 def Rule.checkAt (n : Network) (r : Rule) (i : Nat) (e : Elem) : Bool :=
@@ -132,6 +134,7 @@ def Rule.checkAt (n : Network) (r : Rule) (i : Nat) (e : Elem) : Bool :=
   | .same _ p q => n.eval p i == n.eval q i
   | .ifFwd _ p q q' => n.eval p i == (if e.isForward then n.eval q i else n.eval q' i)
   | .card _ f g => (e.get f).length == (e.get g).length
+  | .memIf _ f kj q => (e.get f).all fun j => if guardKind n kj j then (n.eval q i).contains j else true
 
 /-- the ∀-statement of a rule at element `e` (index `i`) -/
 def Rule.HoldsAt (n : Network) (r : Rule) (i : Nat) (e : Elem) : Prop :=
@@ -150,6 +153,7 @@ def Rule.HoldsAt (n : Network) (r : Rule) (i : Nat) (e : Elem) : Prop :=
   | .same _ p q => n.eval p i = n.eval q i
   | .ifFwd _ p q q' => n.eval p i = (if e.isForward then n.eval q i else n.eval q' i)
   | .card _ f g => (e.get f).length = (e.get g).length
+  | .memIf _ f kj q => ∀ j ∈ e.get f, (∀ k', kj = some k' → n.kindOf j = some k') → j ∈ n.eval q i
 
 /-- the rule checked on every element of its kind -/
 def Rule.check (n : Network) (r : Rule) : Bool := n.forKind r.kind (r.checkAt n)
@@ -269,6 +273,13 @@ def rules : List Rule := [
   .link road succ (some intersection) [[roads]] [[]] .into, -- r.successor is I → r ∈ I.roads
   .link road pred (some intersection) [[roads]] [[]] .into,
   .link intersection roads none [[succ], [pred]] [[]] .into, -- r ∈ I.roads → I is r's successor or predecessor
+  -- links of lane groups and roads agree with the links of their lanes
+  .memIf laneGroup pred (some laneGroup) [[lanes, pred, group]],   -- g.predecessor is the group of a predecessor of one of g's lanes
+  .memIf laneGroup succ (some laneGroup) [[lanes, succ, group]],
+  .memIf laneGroup succ (some intersection) [[Field.road, succ], [Field.road, pred]], -- … or the intersection its road ends at
+  .memIf laneGroup pred (some intersection) [[Field.road, succ], [Field.road, pred]],
+  .memIf road pred (some road) [[lanes, pred, Field.road], [lanes, succ, Field.road]],  -- r.predecessor is the road of a linked lane
+  .memIf road succ (some road) [[lanes, pred, Field.road], [lanes, succ, Field.road]],
   -- maneuvers
   .link lane maneuvers none [[start]] [[]] .eq,             -- m ∈ l.maneuvers → m.startLane is l
   .link maneuver start none [[maneuvers]] [[]] .into,       -- m ∈ m.startLane.maneuvers
